@@ -688,6 +688,9 @@ func c19Stats(cases []string) map[string]int {
 		if strings.Contains(s, "(") {
 			st["formula.group"]++
 		}
+		if strings.Contains(strings.ReplaceAll(s, " ", ""), "()") {
+			st["formula.empty-group"]++
+		}
 		if strings.Contains(s, ")(") || strings.Contains(s, ") (") {
 			st["formula.group-times-group"]++
 		}
